@@ -322,12 +322,13 @@ PROPS["C11"] = dict(
          "frames; every payload names its true sender and intended recipient. Checked: identity prefix == announced id (never a placeholder, "
          "never another peer's; stable for anonymous peers), payload frame lists equal in both directions, a message addressed to I reaches "
          "only claimants of I, unknown id -> HostUnreachable (mandatory) / silent drop to nobody (non-mandatory), a new connection with the "
-         "same identity is routed to after the old one closed. distinct = scenario configuration. (poll) a ROUTER with ROUTER_MANDATORY read by polling with RCVTIMEO 0 / 1 / 5 ms or blocking while waves of 6 or 16 DEALERs (every fourth anonymous) connect at once over tcp/ipc/inproc and send their first message - the payload names the peer - in the same instant: the identity frame must be the announced identity, the reply to the reported identity must be accepted and reach that very peer. (replace) the peer behind an identity goes away and another peer with a different identity takes its place - on the same endpoint the ROUTER reconnects to (ROUTER as connector) or as a new connection (ROUTER as binder), DEALER and ROUTER peers, tcp/ipc, ROUTER_MANDATORY on/off: a message to the old identity goes to nobody (HostUnreachable / silent drop), one to the new identity arrives, nothing meant for the old identity reaches the replacement.",
+         "same identity is routed to after the old one closed. distinct = scenario configuration. (poll) a ROUTER with ROUTER_MANDATORY read by polling with RCVTIMEO 0 / 1 / 5 ms or blocking while waves of 6 or 16 DEALERs (every fourth anonymous) connect at once over tcp/ipc/inproc and send their first message - the payload names the peer - in the same instant: the identity frame must be the announced identity, the reply to the reported identity must be accepted and reach that very peer. (replace) the peer behind an identity goes away and another peer with a different identity takes its place - on the same endpoint the ROUTER reconnects to (ROUTER as connector) or as a new connection (ROUTER as binder), DEALER and ROUTER peers, tcp/ipc, ROUTER_MANDATORY on/off: a message to the old identity goes to nobody (HostUnreachable / silent drop), one to the new identity arrives, nothing meant for the old identity reaches the replacement. (order) waves of 10 / 24 raw DEALER peers over tcp/ipc each writing greeting, READY with its identity and five numbered messages in ONE write - so that the messages are queued at the ROUTER before the identity is applied - read with RCVTIMEO 0 / 1 ms / blocking: each peer's messages come out in the order written, under the announced identity.",
     assumptions=["with colliding identities either claimant may receive (nothing stricter is stated)",
                  "peers talk to the ROUTER in lock-step because DEALER egress ordering is a recorded C01 finding"],
     shards=lambda tier, seed: sharded("c11", _n(tier, 8, 16), _n(tier, 300, 1200))
     + sharded("c11", _n(tier, 3, 8), 900, extra=["--only", "poll"], name="c11-poll")
-    + sharded("c11", 4, 600, extra=["--only", "replace"], name="c11-replace"),
+    + sharded("c11", 4, 600, extra=["--only", "replace"], name="c11-replace")
+    + sharded("c11", 4, 600, extra=["--only", "order"], name="c11-order"),
     min_evaluations={"quick": 100, "thorough": 600},
 )
 
